@@ -61,6 +61,7 @@ def _cases(tier):
     cfgs = CONFIGS_Q if tier == "quick" else CONFIGS_T
     cases = [("triple", ci, w, p, s) for (ci, w, p) in triples(cfgs) for s in range(1 if tier == "quick" else 3)]
     cases += [("async", i) for i in range(12 if tier == "quick" else 120)]
+    cases += [("double", i) for i in range(10 if tier == "quick" else 100)]
     cases += [("in_pipe_write", i) for i in range(1 if tier == "quick" else 4)]
     cases += [("holding_writer_lock", i) for i in range(1 if tier == "quick" else 4)]
     return cfgs, cases
@@ -75,7 +76,7 @@ def plan(tier):
 def required(tier):
     return ["executions", "fault_fired", "kind:SIGKILL", "kind:exit3", "kind:exception", "kind:SIGSEGV", "kind:SIGTERM", "kind:sys_exit_2",
             "point:before_put_0", "point:between_puts", "point:before_sentinel", "point:after_sentinel",
-            "async_kills_delivered", "in_delivery_executions", "exit_nonzero"]
+            "async_kills_delivered", "in_delivery_executions", "exit_nonzero", "double_fault_executions"]
 
 
 def EXHAUSTIVE(tier, m):
@@ -85,6 +86,12 @@ def EXHAUSTIVE(tier, m):
 
 def setup(ctx):
     pass
+
+
+def inconclusive_reasons(m):
+    """a watchdog firing without a structural deadlock proof is neither held nor violated"""
+    n = m["situations"].get("inconclusive_watchdog", 0)
+    return [f"{n} execution(s) hit the wall-clock watchdog without a structural proof of a deadlock"] if n else []
 
 
 def judge(run, fault, wit, expected_text, out_path, viol, sit):
@@ -179,6 +186,30 @@ def run_case(ctx, rng, index, casedir):
             sit["point:" + ("between_puts" if point.startswith("before_put_") and point != "before_put_0" else point)] += 1
             judge(run, planned["fault"], wit, expected, out, viol, sit)
             sigs.append(stable_hash([cfgs[ci], wkr, point, kind, sched]))
+    elif case[0] == "double":
+        # two workers die in one execution (different or equal points / kinds)
+        n, b, c = rng.choice([(6, 2, 3), (8, 2, 2), (5, 1, 4), (9, 3, 3), (4, 1, 2)])
+        w = RR.make_workload(rng, casedir, n)
+        base_out = os.path.join(casedir, "base.gaf")
+        base = RR.run_driver(casedir, "base", ["realign", w.gaf, w.gfa, w.fasta, "-o", base_out, "-c", "1"], {"cores": 1}, None, timeout=120)
+        expected = read_text(base_out)
+        nw = -(-n // b)
+        w1, w2 = rng.sample(range(nw), 2)
+        pts = ["before_put_0", "before_sentinel", "after_sentinel"]
+        f1 = {"worker": w1, "point": rng.choice(pts), "kind": rng.choice(KINDS)}
+        f2 = {"worker": w2, "point": rng.choice(pts), "kind": rng.choice(KINDS)}
+        scale = 0.1
+        planned = {"cores": c, "timeout_scale": scale, "faults": [f1, f2]}
+        planned["worker_delays"], planned["parent_delays"] = survivors_plan(rng, nw, scale)
+        out = os.path.join(casedir, "out_double.gaf")
+        run = RR.run_driver(casedir, "double", ["realign", w.gaf, w.gfa, w.fasta, "-o", out, "-c", str(c)], planned, b, timeout=60)
+        evals = 1
+        sit["executions"] += 1
+        sit["double_fault_executions"] += 1
+        # judged with the earlier of the two fault points (a death before the sentinel must abort)
+        first = f1 if f1["point"] != "after_sentinel" else f2
+        judge(run, dict(first, kind=f"{f1['kind']}+{f2['kind']}"), {"config": {"records": n, "batch": b, "cores": c}, "faults": [f1, f2]}, expected, out, viol, sit)
+        sigs.append(stable_hash([n, b, c, f1, f2]))
     elif case[0] == "async":
         n, b, c = rng.choice([(6, 2, 3), (8, 2, 2), (5, 1, 4), (9, 3, 2)])
         w = RR.make_workload(rng, casedir, n)
